@@ -243,7 +243,8 @@ C07_NoStarvation(o) ==
 (* exist any more or holds no address                                       *)
 C11_NoGhost(o) ==
   o.q => LET a == Api(o)  m == Mem(o) IN
-         \A s \in SvcAll : m[s] # NULL => (a[s] # NULL /\ a[s].status # <<>>)
+         \A s \in SvcAll : m[s] # NULL => (a[s] # NULL /\ a[s].status # <<>>
+                                               /\ Range(m[s].ips) \subseteq Range(a[s].status))   \* no address reserved that no status records
 
 Fails(k) ==
   LET o == Trace[k]  j == k - 1 IN
